@@ -121,7 +121,7 @@ def run_check(prop: str, tier: str) -> int:
     sample = {"quick": 32, "thorough": 256}[tier]
     t_start = time.monotonic()
 
-    replay_dir = os.path.join(VERIF, "replays", prop)
+    replay_dir = os.path.join(os.environ.get("VERIF_REPLAY_ROOT") or os.path.join(VERIF, "replays"), prop)
     procs = []
     for lane in range(lanes):
         cfg = {
@@ -287,8 +287,17 @@ def run_check(prop: str, tier: str) -> int:
         "wall_s": round(wall, 2),
         "violations": len(unmatched),
     }
-    os.makedirs(os.path.join(VERIF, "evidence"), exist_ok=True)
-    with open(os.path.join(VERIF, "evidence", f"{prop}.json"), "w") as f:
+    evidence_dir = os.environ.get("VERIF_EVIDENCE_DIR") or os.path.join(VERIF, "evidence")
+    os.makedirs(evidence_dir, exist_ok=True)
+    sens_path = os.path.join(VERIF, "sensitivity.json")
+    if os.path.exists(sens_path):
+        try:
+            sens = json.load(open(sens_path)).get(prop)
+            if sens:
+                evidence["coverage"]["sensitivity"] = sens
+        except Exception:  # noqa: BLE001,S110
+            pass
+    with open(os.path.join(evidence_dir, f"{prop}.json"), "w") as f:
         json.dump(evidence, f, indent=1, default=str)
 
     print(f"{prop} {tier}: {runs} runs ({discarded} discarded), {evidence['coverage']['evaluations']} executions, "
